@@ -10,11 +10,12 @@ theorem gnodes_get (ns : Array Node) (i : Nat) :
   simp [gnodes]
 
 /-- what the builder needs of the ADF: a well-formed table, an ordering with distinct names that
-names every variable of the table, roots inside the table -/
+names every variable tested at a node reachable from the roots, roots inside the table (derived from
+the parser facts / from the functions the roots denote in `ServerVars.lean`) -/
 structure GraphHyp (names : List String) (ns : Array Node) (ac : List Nat) : Prop where
   wf : TableWF ns
   nodup : names.Nodup
-  vars : ∀ (i : Nat) (n : Node), 2 ≤ i → ns[i]? = some n → n.var < names.length
+  vars : ∀ (i : Nat) (n : Node), 2 ≤ i → GraphM.Reachable (gnodes ns) ac i → ns[i]? = some n → n.var < names.length
   roots : ∀ r ∈ ac, r < ns.size
 
 theorem vbot_lt_vtop : VBOT < VTOP := by unfold VBOT VTOP; omega
@@ -185,7 +186,7 @@ theorem walk_eval {names : List String} {ns : Array Node} {ac : List Nat} (h : G
       rw [hnode]
       simp only [hgetD]
       have hname : nameOfVar names t.var = names.getD t.var "?" := by simp [nameOfVar, hvar.1, hvar.2]
-      rw [hname, indexOf_getD names t.var h.nodup (h.vars x t h2 ht)]
+      rw [hname, indexOf_getD names t.var h.nodup (h.vars x t h2 hreach ht)]
       simp only
       have hchild : ∀ c, c = t.lo ∨ c = t.hi → GraphM.Reachable (gnodes ns) ac c ∧ c < f := by
         intro c hc
